@@ -8,7 +8,7 @@
    explicit `Crash`; the two such reads of the pinned tree (full-width-space test in Tokenize, `tokens[i+1]`
    in Process) are marked [BOUNDS] and are modelled as the code is after fixes (see KNOWN_FINDINGS).
    `Unsup` is answered for what is not modelled:
-     - heredoc / nowdoc (any "<<<"), a leading "#!" line, a leading "<!DOCTYPE" (HTML lexer);
+     - heredoc / nowdoc (any "<<<"), a leading "<!DOCTYPE" (HTML lexer);
      - a byte >= 0x80 outside strings and comments (unicode.IsLetter/IsSpace tables, utf8 decoding);
      - `$` directly before a quoted string that contains '$' or '@'.
    A quoted string whose content contains '$' or '@' (processStringInterpolation may rewrite it or turn it into
@@ -460,8 +460,20 @@ Definition preprocess (raw : list tok) : outcome (list tok) :=
   end.
 
 (* ---------- entry points ---------- *)
+(* strings.Index(input, "\n") *)
+Fixpoint find_nl (l : list nat) (k : nat) : option nat :=
+  match l with
+  | [] => None
+  | b :: t => if b =? 10 then Some k else find_nl t (k + 1)
+  end.
+
 Definition tokenize_raw (template : bool) (s : list nat) : outcome (list tok) :=
-  if negb template && prefix [35; 33] s then Unsup                                  (* #! *)
+  if negb template && prefix [35; 33] s then
+    (* a #! line: the rest is lexed in template mode from its real offset, on line 1 (fix in lexer.go) *)
+    match find_nl s 0 with
+    | None => Ok []
+    | Some nl => lex_loop (S (List.length s)) true false (skipn (S nl) s) (S nl) 1 false []
+    end
   else if negb template && prefix [60; 33; 68; 79; 67; 84; 89; 80; 69] s then Unsup  (* <!DOCTYPE *)
   else lex_loop (S (List.length s)) template false s 0 0 false [].
 
